@@ -25,10 +25,18 @@ def flag_true(F, c):
 def origin(F, body, s):
     """where a policy value comes from: request | readcmd | param:<idx> | server"""
     root = F.bodies[F.root_of[body.id]]
-    if s.has_field("ClientReadRequest", "consistency_policy"):
-        return "request"
     if s.has_field("ReadCmd", "consistency"):
         return "readcmd"
+    if s.has_field("ClientReadRequest", "consistency_policy"):
+        # the request itself may travel through a parameter of this function
+        for x in s.sources:
+            if x[0] == "param" and x[1] >= 2 and not body.coroutine:
+                return "request:%d" % x[1]
+            if x[0] == "upvar":
+                l = param_index(root, x[1])
+                if l and l >= 2:
+                    return "request:%d" % l
+        return "request"
     for x in s.sources:
         if x[0] == "param" and x[1] >= 2 and not body.coroutine and body.kind != "Closure":
             return "param:%d" % x[1]
@@ -90,13 +98,8 @@ def run(ctx):
                     visit(ab, abi, Slice(F, ab).operand(op), chain + [fkey(root)])
             return
         callers = [c for c in F.callers_of(lambda k: k == root) if c[0] != root and not is_test_body(F.bodies[c[1]])]
-        if o == "request" and not callers:
-            entries.setdefault(self_type_of(F, root).split("::")[-1] or fkey(root), []).append((root, b, bi, chain))
-            return
         if o == "request":
-            # the whole request travels through a parameter: every caller must pass the flag test
-            for (croot, cbid, cbi, ct) in callers:
-                visit(F.bodies[cbid], cbi, s, chain + [fkey(root)])
+            entries.setdefault(self_type_of(F, root).split("::")[-1] or fkey(root), []).append((root, b, bi, chain))
             return
         idx = int(o.split(":")[1])
         lifted = False
@@ -105,6 +108,8 @@ def run(ctx):
                 continue
             cb = F.bodies[cbid]
             cs = Slice(F, cb).operand(ct["args"][idx - 1])
+            if o.startswith("request:"):
+                cs.sources.add(("field", "d_engine_core::client::types::ClientReadRequest", "consistency_policy"))
             if origin(F, cb, cs) != "server" or guarded_by(cb, cbi, lambda c: flag_true(F, c), edge_conditions(cb))[0]:
                 lifted = True
                 visit(cb, cbi, cs, chain + [fkey(root)])
